@@ -418,7 +418,7 @@ func batchLimit(t *testing.T, r *vrep.Report, backend string, pess, async, onePC
 }
 
 func TestVerifC04Dedicated(t *testing.T) {
-	r := vrep.New("C04", "c04-dedicated", "dedicated C04 scenarios judged by the trace monitor: (1) live-lock discipline - a commit gated mid-prewrite, primary ttl extended by the owner's heart-beat, clock past the secondaries' ttl, a reader runs into a secondary (2PC on both back-ends, async commit on unistore): the resolver must not finish the transaction and the owner must commit; (2) heart-beats of an open pessimistic transaction with a 150 ms period: at least one, naming the primary, ttl monotone and above the age, none after the end; (3) commits regrouped by the request batch size limit; distinct = distinct scenario outcomes")
+	r := vrep.New("C04", "c04-dedicated", "dedicated C04 scenarios judged by the trace monitor: (1) live-lock discipline - a commit gated mid-prewrite, primary ttl extended by the owner's heart-beat, clock past the secondaries' ttl, a reader runs into a secondary (2PC on both back-ends, async commit on unistore): the resolver must not finish the transaction and the owner must commit; (2) heart-beats of an open pessimistic transaction with a 150 ms period: at least one, naming the primary, ttl monotone and above the age, none after the end; (3) commits regrouped by the request batch size limit; (4) stale primary pointers - a pessimistic transaction whose failed first statement left pessimistic locks behind (rollback lost) goes on under a new primary; a second client (one lock resolver) meets the expired leftovers in several orders and then a prewrite lock of the live / committed transaction: it may resolve that lock only with the outcome the store reported for the transaction (LockNotExistDoNothing / TTLExpirePessimisticRollback answers report none), and a reader that sees one key of the transaction sees the other; distinct = distinct scenario outcomes")
 	defer r.Finish(t)
 	_ = failpoint.Enable("tikvclient/fastBackoffBySkipSleep", "return")
 	for _, be := range []string{uni.Mock, uni.Uni} {
@@ -436,6 +436,18 @@ func TestVerifC04Dedicated(t *testing.T) {
 				batchLimit(t, r, be, pess, false, true, 1)
 			}
 		}
+	}
+	// (4) stale primary pointers: leftovers of a failed first statement whose pessimistic rollback was lost
+	{
+		seed, _ := strconv.ParseInt(os.Getenv("VERIF_SEED"), 10, 64)
+		vs := staleVariants(seed, os.Getenv("VERIF_TIER") == "thorough")
+		for _, v := range vs {
+			stalePrimary(t, r, v)
+		}
+		r.Floor("stale_primary_scenarios", len(vs)*3/4)
+		r.Floor("stale_primary_nonfinal_answers", len(vs)/2)
+		r.Floor("stale_primary_answer:LockNotExistDoNothing", 2)
+		r.Floor("stale_primary_leftover_met_after_nonfinal_answer", len(vs)/3)
 	}
 	failpoint.Disable("tikvclient/fastBackoffBySkipSleep")
 	heartbeats(t, r, uni.Mock)
